@@ -4,6 +4,7 @@ import (
 	"go/ast"
 	"go/token"
 	"go/types"
+	"golang.org/x/tools/go/cfg"
 	"strings"
 )
 
@@ -165,4 +166,118 @@ func fmtInt(i int) string {
 		i /= 10
 	}
 	return s
+}
+
+// errNoEffectRule: a builder or setter that reports an error has not changed the value it was called on — a
+// caller that handles the error by carrying on (trying the other variant, skipping the option) must not find the
+// rejected setting in the message. On the control-flow graph: no store into the receiver reaches a return that
+// can carry a non-nil error.
+func errNoEffectRule(w *World, r *Report, rule string, sel func(fi *FuncInfo) bool) {
+	n := 0
+	w.eachModuleFunc(func(fi *FuncInfo) {
+		if fi.Decl.Body == nil || fi.Recv == nil || !sel(fi) || isCodecMethod(fi.Decl.Name.Name) {
+			return
+		}
+		sig := fi.Obj.Type().(*types.Signature)
+		if sig.Results().Len() != 1 || !isErrorType(sig.Results().At(0).Type()) {
+			return
+		}
+		if _, isPtr := sig.Recv().Type().(*types.Pointer); !isPtr {
+			return
+		}
+		for i := 0; i < sig.Params().Len(); i++ {
+			if isByteSlice(sig.Params().At(i).Type()) {
+				return // a decoder step: what it filled before it failed is discarded with the value
+			}
+		}
+		if fi.Decl.Recv == nil || len(fi.Decl.Recv.List) == 0 || len(fi.Decl.Recv.List[0].Names) == 0 {
+			return
+		}
+		info := fi.Pkg.TypesInfo
+		recv := info.Defs[fi.Decl.Recv.List[0].Names[0]]
+		if recv == nil {
+			return
+		}
+		n++
+		g := w.funcCFG(info, fi.Decl.Body)
+		rootedAtRecv := func(e ast.Expr) bool {
+			for {
+				switch x := unparen(e).(type) {
+				case *ast.SelectorExpr:
+					e = x.X
+				case *ast.IndexExpr:
+					e = x.X
+				case *ast.StarExpr:
+					e = x.X
+				case *ast.Ident:
+					return info.Uses[x] == recv
+				default:
+					return false
+				}
+			}
+		}
+		type at struct {
+			b *cfg.Block
+			i int
+		}
+		var stores []at
+		var storePos []token.Pos
+		var rets []at
+		for _, b := range g.Blocks {
+			for i, nd := range b.Nodes {
+				switch x := nd.(type) {
+				case *ast.AssignStmt:
+					for _, l := range x.Lhs {
+						if _, isID := unparen(l).(*ast.Ident); !isID && rootedAtRecv(l) {
+							stores = append(stores, at{b, i})
+							storePos = append(storePos, x.Pos())
+						}
+					}
+				case *ast.IncDecStmt:
+					if _, isID := unparen(x.X).(*ast.Ident); !isID && rootedAtRecv(x.X) {
+						stores = append(stores, at{b, i})
+						storePos = append(storePos, x.Pos())
+					}
+				case *ast.ReturnStmt:
+					if len(x.Results) == 1 {
+						if id, ok := unparen(x.Results[0]).(*ast.Ident); ok && id.Name == "nil" {
+							continue
+						}
+						rets = append(rets, at{b, i})
+					}
+				}
+			}
+		}
+		bad := token.NoPos
+		for si, s := range stores {
+			// blocks reachable from the store
+			seen := map[*cfg.Block]bool{}
+			var stack []*cfg.Block
+			stack = append(stack, s.b.Succs...)
+			for len(stack) > 0 {
+				b := stack[len(stack)-1]
+				stack = stack[:len(stack)-1]
+				if seen[b] {
+					continue
+				}
+				seen[b] = true
+				stack = append(stack, b.Succs...)
+			}
+			for _, rt := range rets {
+				if (rt.b == s.b && rt.i > s.i) || seen[rt.b] {
+					bad = storePos[si]
+				}
+			}
+		}
+		pos := w.Pos(fi.Decl.Pos())
+		switch {
+		case len(stores) == 0 || len(rets) == 0:
+			r.OK(rule, fi.Key, "", pos, "no store into the receiver, or no error return", false)
+		case bad != token.NoPos:
+			r.Fail(VViolation, rule, fi.Key, "", w.Pos(bad), "the receiver is written here and the method can still return an error afterwards: a call that is refused leaves its setting in the value, and it is encoded")
+		default:
+			r.OK(rule, fi.Key, "", pos, "every store into the receiver lies behind the last return that can carry an error", true)
+		}
+	})
+	r.Stats["errnoeffect_methods"] = n
 }
